@@ -28,6 +28,7 @@ struct UbReport { bool pending; char kind[64]; char file[256]; unsigned line; ch
 extern UbReport g_ub;
 extern bool g_ubCollect;   // batch mode: print a UBHIT line and carry on instead of failing the run
 extern unsigned long long g_curRun, g_curSeed;
+extern unsigned g_pristineEvery;   // batch mode: every n-th run is also compared with the pristine reference process
 void ubAfterOp(Verdict& v, int opIndex, const std::string& opLine);
 
 // index of the op being executed (for crash recovery in batch mode)
